@@ -12,7 +12,9 @@ use crate::{
 use self::{
     choice::parse_choice,
     conditional::{looks_like_conditional, parse_conditional},
-    expression::{parse_bool, parse_call_like, parse_expression, parse_path_identifier},
+    expression::{
+        is_identifier, parse_bool, parse_call_like, parse_expression, parse_path_identifier,
+    },
     inline::{
         parse_divert, parse_divert_line, parse_dynamic_string, split_inline_divert,
         tokenize_inline_content,
